@@ -337,6 +337,10 @@ def rename_classes() -> list[str]:
     return out + ["Rename"]
 
 
+import functools
+
+
+@functools.lru_cache(maxsize=4096)
 def bound_names(text: str) -> dict:
     """identifiers the fragment itself binds, by kind; plus every identifier-like string it mentions"""
     tree = ast.parse(text)
@@ -403,9 +407,18 @@ def _affix(old: str, kind: str, pos: str, tok: str, rank: int) -> str | None:
     return lead + core[:cut] + tok + core[cut:]
 
 
-def spec_keeps(spec: dict, name: str) -> bool:
+def spec_keeps(spec: dict, name: str, kind: str = "var") -> bool:
+    """the identifier is one the document defines a pattern or an exemption by: it keeps its name"""
     low = name.lower()
-    return low in spec.get("keep_exact_lower", ()) or any(t in low for t in spec.get("keep_contains_lower", ()))
+    if low in spec.get("keep_exact_lower", ()) or any(t in low for t in spec.get("keep_contains_lower", ())):
+        return True
+    if kind == "fn":
+        bare = name.lstrip("_")
+        if any(bare.startswith(pfx) for pfx in spec.get("fn_forbid_prefixes", ())):
+            return True
+        if name in spec.get("fn_forbid_names", ()) or bare in spec.get("fn_forbid_names", ()):
+            return True
+    return False
 
 
 def spec_forbids(spec: dict, kind: str, new: str) -> str | None:
@@ -440,7 +453,7 @@ def rename_plan_for(text: str, cls: str, spec: dict):
         mk = lambda k, x, r: _affix(x, k, pos, tok, r)   # noqa: E731
     plan, taken, skipped = {}, set(b["all"]), "no identifier of that kind to rename"
     for rank, (k, x) in enumerate(todo):
-        if spec_keeps(spec, x):
+        if spec_keeps(spec, x, k):
             skipped = f"`{x}` is part of the documented pattern and keeps its name"
             continue
         new = mk(k, x, rank)
@@ -513,7 +526,16 @@ FILLER_OPEN = [
 ]
 
 
+@functools.lru_cache(maxsize=8192)
+def _names_filler(text: str, kind: str) -> tuple:
+    return tuple(_names_filler_raw(text, kind))
+
+
 def names_filler(text: str, kind: str) -> list[str]:
+    return list(_names_filler(text, kind))
+
+
+def _names_filler_raw(text: str, kind: str) -> list[str]:
     """an unrelated function that happens to use the fragment's own variable names as its locals"""
     tree = ast.parse(text)
     names = []
